@@ -478,3 +478,9 @@ def slack_next(eng, a0, i, log):
     lg = eng.tobool(log)
     lg = z3.BoolVal(lg) if isinstance(lg, bool) else lg
     return SV(eng.facts.slack_step(zint(a0), zint(i), lg), "int")
+
+
+@spec
+def anclabel(eng, n):
+    """the label '__a<n>'"""
+    return SV(eng.facts.anc_label(zint(n)), "label")
